@@ -310,7 +310,9 @@ RepaintDevs(c, t0, t, b, s) ==
         ELSE {Dev("C13.extra_write", "cell", (i - 1) % b.w, (i - 1) \div b.w, vis[i].k) : i \in (stamped \ allowed) \ locked})
        \cup {Dev("C13.locked_write", "cell", (i - 1) % b.w, (i - 1) \div b.w, vis[i].k)
              : i \in {j \in stamped \cap locked : t.g[j].w # 0 /\ t.g[j].cp # -2}}
-       \cup {Dev("C13.unlock_norepaint", "cell", (i - 1) % b.w, (i - 1) \div b.w, vis[i].k)
+       \* (the bottom cell of a one-column screen on corner-trick terminals cannot be painted: finding F40)
+       \cup {Dev(IF b.w = 1 /\ i = last /\ Ich1Trick(c) THEN "C13.unlock_norepaint_one_column" ELSE "C13.unlock_norepaint",
+                 "cell", (i - 1) % b.w, (i - 1) \div b.w, vis[i].k)
              : i \in {j \in s.unl : j <= Len(vis) /\ b.cells[j].lock = 0 /\ vis[j].k # "cont" /\ j \notin stamped}}
 
 \* C04: registers at Fini / Suspend return
